@@ -206,3 +206,13 @@ Proof. split; [exact ex_s_wf|]. split; [exact ex_s_nodup|exact ex_ops_ok]. Qed.
 Example from_vecs_wf_nonvacuous :
   wfS (@mkS AQ 3 4 (nth 4 [0; 0; 2; 3; 4] 0) [q 2 1; q (-1) 2; q 7 1; q 5 3] [2; 0; 1; 2] [0; 0; 2; 3; 4]).
 Proof. exact ex_s_wf. Qed.
+
+(* ---- tie to the source by proof (package r2c): the functions regenerated from /repo/src on this run by the Rust-subset ->
+   Gallina translator (driver/rust2coq.py -> gen/Src*.v) are equal, for all arguments, to the hand-written model functions
+   the theorems above are about (Proofs/SrcEq*.v).  A change of a loop bound, index, operator or statement order in the
+   source breaks the corresponding src_<function> lemma and with it this obligation. *)
+From OV Require Proofs.SrcEqSparse.
+Theorem model_is_source_C06_Sparse : forall A : Arith, @SrcEqSparse.model_is_source_Sparse A.
+Proof. intros A. exact SrcEqSparse.model_is_source_Sparse_lemma. Qed.
+Check model_is_source_C06_Sparse : forall A : Arith, @SrcEqSparse.model_is_source_Sparse A.
+Print Assumptions model_is_source_C06_Sparse.
